@@ -104,6 +104,7 @@ def run(ctx):
             # break Hermiticity in one entry (or keep it: an entry and its partner changed consistently)
             p_, q_ = rng.randrange(n), rng.randrange(n); one[p_, q_] += dyc(rng) if p_ != q_ else 1j
             if rng.random() < 0.3 and p_ != q_: one[q_, p_] = np.conj(one[p_, q_])
+        if i % 5 == 4: const = complex(const, rng.choice([0.5, -1.25, 2.0]))     # a complex constant alone makes the operator non-Hermitian
         iop = of.InteractionOperator(const, one, two)
         fo = of.get_fermion_operator(iop)
         if exact_terms_ok(fo.terms):
